@@ -798,7 +798,50 @@ fn arg_after(args: &[String], name: &str) -> Option<String> {
     args.iter().position(|a| a == name).and_then(|i| args.get(i + 1).cloned())
 }
 
+/// Minimal reproductions of the recorded findings, straight against the real store (no TLC output needed):
+/// `verif-harness replay-blockstore --repro`.
+fn repro(seed: u64) -> Value {
+    let mut d = BsDriver::new(seed);
+    let sl = |idx: u64, last: bool, par: &str, ntx: u64| json!({"idx": idx, "last": last, "par": par, "body": "tx", "ntx": ntx});
+    let setup = |cls: &str, sl: Vec<Value>| {
+        json!({"op": "setup", "role": "follower", "slot": 5, "maxidx": 2,
+               "sc": {"cls": cls, "n": 1, "honest": false, "sl": sl},
+               "blocks": [[0, 15], [16, 31], [32, 47], [48, 63]],
+               "parslot": {"A": 3, "B": 4, "C": 2, "L": 9, "S": 5}})
+    };
+    let dl = |k: u64, b: u64, via: &str| json!({"op": "deliver", "k": k, "b": b, "via": via});
+    let mut out = serde_json::Map::new();
+    let mut run = |d: &mut BsDriver, name: &str, acts: Vec<Value>| {
+        d.reset();
+        let mut steps = Vec::new();
+        for a in acts {
+            let o = d.step(&a);
+            if a["op"] != "setup" {
+                steps.push(json!({"act": a, "returns": rle(&o["rets"]), "events": o["evs"], "block": o["blk"]["ok"]}));
+            }
+        }
+        let obs = d.obs();
+        out.insert(name.to_string(), json!({"steps": steps, "flagged": obs["bad"], "block_stored": obs["done"]["ok"]}));
+    };
+    // slice 0 is signed as the last slice; the leader also signed a slice 1
+    let two = || vec![sl(0, true, "A", 2), sl(1, false, "none", 1)];
+    run(&mut d, "late_marker: slice 1 first, then the last marker of slice 0",
+        vec![setup("beyond_last", two()), dl(2, 1, "direct"), dl(2, 2, "direct"), dl(1, 1, "direct"), dl(1, 2, "direct")]);
+    run(&mut d, "reverse order: last marker of slice 0 first, then slice 1",
+        vec![setup("beyond_last", two()), dl(1, 1, "direct"), dl(2, 1, "direct")]);
+    // two signed slices for index 0 with different content
+    let conf = || vec![sl(0, true, "A", 2), sl(0, true, "A", 3)];
+    run(&mut d, "conflicting slices through the node's validation (cached commitment)",
+        vec![setup("conflict_content", conf()), dl(1, 1, "node"), dl(2, 1, "node"), dl(1, 2, "node")]);
+    run(&mut d, "conflicting slices handed to the store directly",
+        vec![setup("conflict_content", conf()), dl(1, 1, "direct"), dl(2, 1, "direct"), dl(1, 2, "direct")]);
+    Value::Object(out)
+}
+
 pub fn run(args: &[String], seed: u64) -> anyhow::Result<Value> {
+    if args.iter().any(|a| a == "--repro") {
+        return Ok(repro(seed));
+    }
     let path = arg_after(args, "--tlc-out").expect("--tlc-out");
     let model = arg_after(args, "--model").unwrap_or_else(|| "blockstore".to_string());
     let sample = arg_after(args, "--sample").and_then(|s| s.parse().ok());
